@@ -27,6 +27,22 @@ def series(n, allmissing=False, onevalid=False, nd=-3000):
     return np.array(y, dtype="float64")
 
 
+KINDS = ("rand", "allmissing", "onevalid", "const", "linear", "constgap", "lineargap")
+
+
+def series_kind(n, kind, nd=-3000):
+    """the random family plus the DEGENERATE shapes on which residuals vanish exactly (constant / exactly linear series, with and without
+    gaps): iterations that stop early, MADs of zero, perfect fits - the paths on which a result table can end up shorter than the code
+    after the loop assumes"""
+    if kind in ("rand", "allmissing", "onevalid"):
+        return series(n, kind == "allmissing", kind == "onevalid", nd)
+    y = [50.0] * n if kind.startswith("const") else [100.0 + 7.0 * i for i in range(n)]
+    if kind.endswith("gap") and n > 2:
+        for i in rng.sample(range(n), min(n - 1, max(1, n // 4))):
+            y[i] = nd
+    return np.array(y, dtype="float64")
+
+
 def attempt(name, inp, fn):
     global ncases
     ncases += 1
@@ -64,8 +80,8 @@ if group == "smooth1":
         y = series(n)
         w = (y != -3000).astype("float64")
         attempt("ws2d", dict(n=n), lambda: ws2d(y, 10.0, w))
-        for kind in ("rand", "allmissing", "onevalid"):
-            yy = series(n, kind == "allmissing", kind == "onevalid")
+        for kind in KINDS:
+            yy = series_kind(n, kind)
             inp = dict(y=yy.tolist(), kind=kind)
             twice("ws2dgu", inp, lambda o: ops.ws2dgu(yy, 10.0, -3000.0, out=o[0]), [((n,), "int16")])
             twice("ws2dpgu", inp, lambda o: ops.ws2dpgu(yy, 10.0, -3000.0, 0.9, out=o[0]), [((n,), "int16")])
@@ -73,8 +89,8 @@ elif group == "smooth2":
     for n in sizes + [rng.randint(7, 40) for _ in range(budget)]:
         for nl in (2, 3, rng.randint(4, 20)):
             sr = np.arange(nl) * 0.5 - 1
-            for kind in ("rand", "allmissing", "onevalid"):
-                yy = series(n, kind == "allmissing", kind == "onevalid")
+            for kind in KINDS:
+                yy = series_kind(n, kind)
                 inp = dict(y=yy.tolist(), srange=sr.tolist(), kind=kind)
                 twice("ws2doptv", inp, lambda o: ops.ws2doptv(yy, -3000.0, sr, out=(o[0], o[1])), [((n,), "int16"), ((), "float64")])
                 twice("ws2doptvp", inp, lambda o: ops.ws2doptvp(yy, -3000.0, 0.9, sr, out=(o[0], o[1])), [((n,), "int16"), ((), "float64")])
@@ -85,8 +101,8 @@ elif group == "smooth3":
     for n in sizes + [rng.randint(7, 40) for _ in range(budget)]:
         for nl in (2, 3, rng.randint(4, 12)):
             sr = np.arange(nl) * 0.5 - 1
-            for kind in ("rand", "allmissing", "onevalid"):
-                yy = series(n, kind == "allmissing", kind == "onevalid")
+            for kind in KINDS:
+                yy = series_kind(n, kind)
                 inp = dict(y=yy.tolist(), srange=sr.tolist(), kind=kind)
                 for rob in (False, True):
                     twice("ws2dwcv", dict(inp, robust=rob), lambda o: ops.ws2dwcv(yy, -3000.0, sr, rob, out=(o[0], o[1])), [((n,), "int16"), ((), "float64")])
